@@ -52,6 +52,7 @@ META = {
 }
 
 ALLOWED_HOST = "cupola.query-farm.services"
+EVIL_URL = "https://evil.example/cb"
 BASES = [("https", "svc.example", None, "https://svc.example/vgi/_oauth/callback?code=c&state=s"), ("http", "svc.example", 8080, "http://svc.example:8080/vgi/x")]
 ALLOWLISTS: list[list[str]] = [
     ["https://" + ALLOWED_HOST],
@@ -395,8 +396,14 @@ def run(ctx: Any) -> None:
     # ---- (d) cookie + callback vs the real functions ----------------------------------------------------------------
     sk = M._derive_session_key(TOKEN_KEY)
     now = int(time.time())
-    fields_pool = ["", "v", "verifier-43", "sté", "/vgi/x?y", "https://" + ALLOWED_HOST + "/", "a" * 300, "\U0001f600"]
+    fields_pool = ["", "v", "verifier-43", "sté", "/vgi/x?y", "https://" + ALLOWED_HOST + "/", "a" * 300, "\U0001f600"] + [
+        # multi-byte fields: n extra UTF-8 bytes balanced by an n-byte tail that reads as uint16 length + URL
+        "/vgi/" + "é" * (2 + len(EVIL_URL)) + "/" + chr(len(EVIL_URL)) + "\x00" + EVIL_URL,
+        "/vgi/" + "€" * 13 + "~~" + EVIL_URL + "?",
+        "/vgi/é?x=ü", "日本語/パス", "\U0001f600" * 7 + "\x02\x00//", "https://" + ALLOWED_HOST + "/é#ü",
+    ]
     cases_e, meta_e = [], []
+    pack_meta: list[tuple[str, str, str, str]] = []
 
     def tag_of(raw: bytes) -> bytes:
         return _hmac.new(sk, raw[:-32], hashlib.sha256).digest()
@@ -428,7 +435,18 @@ def run(ctx: Any) -> None:
         # pack vs model layout
         cases_e_pack = (f"({cN(created)}, {cbytes(cv.encode())}, {cbytes(st.encode())}, {cbytes(url.encode())}, {cbytes(rt.encode())})", copt(cbytes(raw[:-32])))
         pack_cases.append(cases_e_pack)
+        pack_meta.append((cv, st, url, rt))
         add_unpack(raw, now, "genuine")
+        # round trip on the real functions: what the server packs is what it reads back (within the lifetime)
+        with _frozen_time(created + rng.choice([0, 1, 300, 600])):
+            try:
+                back: Any = M._unpack_oauth_cookie(ck, sk)
+            except Exception as e:  # noqa: BLE001
+                back = f"{type(e).__name__}: {e}"
+        ctx.count("impl_runs")
+        ctx.tally("roundtrip_field_kind", "non-ascii" if not (cv + st + url + rt).isascii() else "ascii")
+        if back != (cv, st, url, rt):
+            ctx.violation("cookie-roundtrip-differs", "_unpack_oauth_cookie(_pack_oauth_cookie(fields)) is not fields", {"packed": [cv, st, url, rt], "unpacked": back, "cookie": ck})
         m = rng.randrange(7)
         if m == 0:
             b = bytearray(raw)
@@ -465,6 +483,8 @@ def run(ctx: Any) -> None:
     def _done6(ok: bool, bad: list[int], clog: str) -> None:
         ctx.count("model_cases", len(pack_cases))
         ctx.obligation("correspondence:M_Url.cookie_layout~_pack_oauth_cookie", "correspondence", ok and not bad, clog if not ok else f"{len(bad)} of {len(pack_cases)} disagree")
+        for i in bad[:3]:
+            ctx.violation("cookie-pack-layout-differs", "_pack_oauth_cookie does not produce the payload layout (uint16 LE byte-length prefixes)", {"fields": list(pack_meta[i])})
 
     # oracle on unpack: success only with a verifying MAC, version 4, age within [0, 600]
     for what, rawhex, dt, got in meta_e:
@@ -560,6 +580,52 @@ def run(ctx: Any) -> None:
                         exp_code = 6 if completes else (2 if cval is None else (4 if what == "wrong-state" else 3))
                         cb_cases.append((f"({cbytes(tag)}, {b64}, {cN(t_now)}, {cstr(state)}, {cbool(cval is not None)})", cN(exp_code)))
                         cb_meta.append((what, r3.status_code))
+            # crafted request paths with multi-byte characters, no _vgi_return_to: the whole flow through the WSGI
+            # app itself (path percent-encoded on the wire, decoded by the WSGI layer), untampered cookie
+            from urllib.parse import parse_qs, quote, urlparse as _up
+
+            from harness.c37_app import header_values
+
+            crafted: list[str] = [f"{prefix}/describe", f"{prefix}/" + quote("é/ü", safe="/")]
+            for ch in ("é", "€", "\U0001f600"):
+                extra = len(ch.encode()) - 1
+                for target in (EVIL_URL, "//evil.example/x", "http://evil.example\\@localhost/"):
+                    need = 2 + len(target)
+                    n = -(-need // extra)
+                    pad = "x" * (n * extra - need)
+                    exact = chr(len(target) & 0xFF) + chr(len(target) >> 8)
+                    crafted.append(f"{prefix}/" + quote(ch * n + "/" + pad + exact + target, safe=""))
+                    crafted.append(f"{prefix}/" + quote(ch * (n + 1) + "/", safe="") + pad + "~~" + quote(target, safe=":/") + "%3F")
+                    crafted.append(f"{prefix}/" + quote(ch * rng.randrange(1, 40) + rng.choice(["", "/", "~~", "\x05\x00"]) + target, safe=""))
+            for wire_path in crafted:
+                try:
+                    s1, h1 = client.wsgi_get(wire_path, headers={"Accept": "text/html"})
+                except Exception as e:  # noqa: BLE001
+                    ctx.tally("flow", f"escaped:{type(e).__name__}")
+                    continue
+                ctx.count("impl_runs")
+                ctx.case(["flow-crafted", prefix, wire_path], nontrivial=True)
+                repl = {"prefix": prefix, "wire_path": wire_path, "site": "crafted-path flow, no _vgi_return_to"}
+                if s1 != 302:
+                    ctx.tally("flow", f"crafted-first:{s1}")
+                    continue
+                loc1 = (header_values(h1, "location") or [""])[0]
+                sess = [c.split(";", 1)[0].split("=", 1)[1] for c in header_values(h1, "set-cookie") if c.startswith("_vgi_oauth_session=")]
+                if not loc1.startswith(AUTH_ENDPOINT + "?") or not sess:
+                    ctx.violation("idp-redirect-not-configured-endpoint", "the 401->302 redirect does not target the configured authorization endpoint / sets no session cookie", {**repl, "location": loc1})
+                    continue
+                state = parse_qs(_up(loc1).query)["state"][0]
+                try:
+                    _, _, ou_c, rt_c = M._unpack_oauth_cookie(sess[0], sk)
+                except Exception as e:  # noqa: BLE001
+                    ou_c, rt_c = f"{type(e).__name__}", ""
+                if rt_c != "":
+                    ctx.violation("cookie-return-to-not-input", "the session cookie reads back a return_to although the request carried none", {**repl, "cookie_return_to": rt_c, "cookie_original_url": ou_c})
+                s2, h2 = client.wsgi_get(cb_path, query=f"code=c&state={state}", headers={"Cookie": f"_vgi_oauth_session={sess[0]}"})
+                ctx.count("impl_runs")
+                ctx.tally("flow", f"crafted-callback:{s2}")
+                if s2 == 302:
+                    node_jobs.append(((header_values(h2, "location") or [""])[0], svc + cb_path + "?code=c&state=" + state, repl, "must-stay"))
             # already authenticated: process_request redirects immediately
             for rt in flow_rt:
                 try:
@@ -579,7 +645,11 @@ def run(ctx: Any) -> None:
     res = node_origins([(loc, base) for loc, base, _, _ in node_jobs])
     for (loc, base, repl, kind), r in zip(node_jobs, res):
         ctx.count("oracle_locations")
-        if kind == "same-origin":
+        if kind == "must-stay":
+            if r["ok"] and r["origin"] != "https://svc.example":
+                leaked = [k for k in ("token=", "client_secret=", "refresh_token=") if k in loc]
+                ctx.violation("callback-redirect-leaves-allowed-origins", f"after a login started on a crafted path (no _vgi_return_to) the callback redirects to {r['origin']}" + (f" with {leaked} in the fragment" if leaked else ""), {**repl, "location": loc, "node": r})
+        elif kind == "same-origin":
             if r["ok"] and r["origin"] != "https://svc.example":
                 ctx.violation("original-url-leaves-origin", f"the flow redirects to {loc!r}, which a browser resolves to {r['origin']}", {**repl, "location": loc, "node": r})
         elif not _origin_safe(r, ALLOWLISTS[0]):
